@@ -9,7 +9,7 @@ from .. import core, runner
 from . import c03
 
 THEOREMS = ["ZI.AttrsW.C15_agree", "ZI.AttrsW.C15_present", "ZI.AttrsW.C15_pinned_violates", "ZI.AttrsW.C15_get", "ZI.AttrsW.get_memoOk",
-            "ZI.AttrsW.setBases_memoOk", "ZI.AttrsW.C15_tags", "ZI.AttrsW.C15_tag_first", "ZI.AttrsW.C15_invariants", "ZI.AttrsW.C15_follow",
+            "ZI.AttrsW.setBases_memoOk", "ZI.AttrsW.C15_tags", "ZI.AttrsW.C15_tag_first", "ZI.AttrsW.C15_invariants", "ZI.AttrsW.C15_follow", "ZI.AttrsW.C15_get_history", "ZI.AttrsW.winv_run", "ZI.AttrsW.winv_step", "ZI.AttrsW.step_untouched", "ZI.AttrsW.sroFresh_congr",
             "ZI.Attrs.nad_eq_get", "ZI.Upd.get?_fold_reverse"]
 NAMES = ["a", "b", "c", "d"]
 TAGS = ["p", "q", "r"]
@@ -149,8 +149,7 @@ class _Null:
 
 def check(tier):
     chk = core.Check("C15", tier)
-    chk.obligations(THEOREMS, ["C15_get composed over re-basing histories: setBases_memoOk's proviso is discharged by ZI.Prop.prop_spec (nothing outside the "
-                               "downstream closure is touched) but the composition with the Graph2 history invariant is not yet a theorem"])
+    chk.obligations(THEOREMS)
     rnd = core.rng("C15")
     corpus = [["reset", "iface 1 - foo:10 - -".replace("foo", "a"), "iface 2 1 - - -", "iface 3 1 a:30 - -", "iface 4 2,3 - - -", "q 4", "get 4 a"]]
     scripts = corpus + [gen_script(rnd, tier) for _ in range({"quick": 300, "thorough": 8000}[tier])]
